@@ -221,3 +221,58 @@ CHECKS["C06"] = {
     "explanation": "symbolic letters/qualities; offsets, ranges and feature geometry case-split by the engine (they determine result shapes) over a window that includes positions before, inside and after the sequence; positional specifications written from the statement; destination/source independence probed by a Set on the result",
     "outside": "Trim (floating-point sums of symbolic error probabilities: not decidable with this engine, not claimed), sequences longer than stated, more than 3 features",
 }
+
+
+def _mor(func, chunk, ns, rec=0, faults=0, **kw):
+    p = {"chunk": chunk, "cycles": len(ns), "rec": rec, "faults": faults}
+    for i, n in enumerate(ns):
+        p["n%d" % i] = n
+    j = {"pkgdir": "morass", "func": func, "params": p, "sched": "det", "fsmodel": True, "max_faults": faults}
+    j.update(kw)
+    return j
+
+
+def c11_jobs(tier):
+    jobs = []
+    if tier == "quick":
+        hist = [(1, [2]), (2, [1]), (2, [3]), (2, [1, 3]), (2, [3, 1]), (2, [0, 2]), (3, [4])]
+    else:
+        hist = [(1, [2]), (1, [3]), (2, [1]), (2, [2]), (2, [3]), (2, [5]), (3, [2]), (3, [4]), (3, [7]),
+                (2, [1, 3]), (2, [3, 1]), (2, [0, 2]), (2, [3, 3]), (3, [2, 4]), (2, [1, 3, 1]), (2, [3, 1, 3])]
+    for (c, ns) in hist:
+        jobs.append(_mor("VerifC11_History", c, ns))
+    jobs.append(_mor("VerifC11_History", 2, [3], rec=1))
+    if tier == "thorough":
+        jobs.append(_mor("VerifC11_History", 2, [1, 3], rec=1))
+    return jobs
+
+
+CHECKS["C11"] = {
+    "jobs": c11_jobs,
+    "native_rewrite": {"morass/morass.go": "morass"},
+    "functions": ["morass.{New,Push,write,Finalise,Pull,Clear,CleanUp,Len,Pos,setErr,err}", "morass.sorter / files heap methods", "sort.Sort, container/heap (executed)",
+                  "reflect intrinsics; temp-file/gob layer = engine model (no faults here)"],
+    "assumptions": ["temp files and gob are modelled as perfect storage (Decode returns what Encode stored, then io.EOF); native replay runs the real OS and gob through pass-through wrappers"],
+    "explanation": "symbolic values (duplicates possible), symbolic drain choice and AutoClear per cycle, per-cycle push counts on both sides of the chunk size; sorted + multiset equality + Len/Pos oracle; sequential mode with the deterministic scheduler (the writer goroutine runs when Push blocks on the pool)",
+    "outside": "more cycles / larger counts than stated, concurrent mode (C12), element types other than int and a two-field struct",
+}
+
+
+def c13_jobs(tier):
+    jobs = []
+    hist = [(1, [2]), (2, [3]), (2, [1])] if tier == "quick" else [(1, [2]), (2, [3]), (2, [1]), (2, [5]), (2, [3, 1]), (2, [1, 3])]
+    for (c, ns) in hist:
+        jobs.append(_mor("VerifC11_History", c, ns, faults=1))
+    for (c, n) in ([(2, 1), (2, 3)] if tier == "quick" else [(2, 1), (2, 3), (1, 2), (3, 7)]):
+        jobs.append(_mor("VerifC13_AutoClean", c, [n]))
+    return jobs
+
+
+CHECKS["C13"] = {
+    "jobs": c13_jobs,
+    "native_rewrite": {"morass/morass.go": "morass"},
+    "functions": ["morass (as C11)", "engine temp-file/gob model with one symbolic fault per path"],
+    "assumptions": ["a failing operation returns an error and has no effect; at most one fault per history; the position of the fault is a solver variable (fault_k for every model operation k)"],
+    "explanation": "C11 histories with the fault schedule switched on: if a fault fired, some later Push/Finalise/Pull/Clear returned a non-nil non-EOF error, or the values delivered are exactly the pushed multiset; residue: directory gone after CleanUp and after an AutoClean drain, no run files after an AutoClear drain",
+    "outside": "concurrent mode with faults, more than one fault, faults in TempDir beyond New's own error return",
+}
